@@ -197,11 +197,7 @@ impl QueryVisitor {
                                         Range::Value(lv),
                                         Range::Value(rv),
                                         Range::Comparison(rc),
-                                    ) => match (lc, rc) {
-                                        (Comparison::Gte, Comparison::Lte) => (true, lv, rv, true),
-                                        (Comparison::Gt, Comparison::Lt) => (false, lv, rv, false),
-                                        _ => panic!("invalid range comparison"),
-                                    },
+                                    ) => (lc == Comparison::Gte, lv, rv, rc == Comparison::Lte),
                                     _ => panic!("invalid range value"),
                                 };
 
